@@ -90,6 +90,7 @@ extern "C" {
 
 #define HTP_FIELD_LIMIT_HARD               18000
 #define HTP_FIELD_LIMIT_SOFT               9000
+#define HTP_HEADERS_LIMIT                  1024
 
 #define HTP_VALID_STATUS_MIN                100
 #define HTP_VALID_STATUS_MAX                999
